@@ -380,7 +380,7 @@ Definition fdevice (e : fenv) (cfg : config) (x : fstate) (auth : option nat) (d
             match rd e x1 MGetDevice ROk with
             | (Some _, x2) => ffail x2 "server_error"
             | (None, x2) =>
-                match tx_block e x2 MInvalidateDevice (fun v => (delete_device v k, ROk)) (r_id r) (can_refresh cfg (r_gscopes r) cl) stored srv with
+                match tx_block e x2 MInvalidateDevice (fun v => (invalidate_device v k (r_id r), ROk)) (r_id r) (can_refresh cfg (r_gscopes r) cl) stored srv with
                 | (x5, inl err) => ffail x5 err
                 | (x5, inr (ka, kr)) =>
                     (* OpenIDConnectDeviceHandler: GetOpenIDConnectSession (no session) *)
